@@ -90,8 +90,11 @@ theorem first_poll_at_node_zero (cfg : Cfg) (tt : TT) (rep : RepTable) :
 /-- the poll test `nodes & INPUT_POLL_INTERVAL == 0` is "the counter is a multiple of `INPUT_POLL_INTERVAL + 1`"
     (re-checked when the constant is re-tuned: it must be one less than a power of two) -/
 theorem poll_test_is_multiple (n : Nat) : n &&& Gen.INPUT_POLL_INTERVAL = n % (Gen.INPUT_POLL_INTERVAL + 1) := by
-  have h : Gen.INPUT_POLL_INTERVAL = 2 ^ 14 - 1 := by decide
-  rw [h, Nat.and_two_pow_sub_one_eq_mod]
+  have h : Gen.INPUT_POLL_INTERVAL = 2 ^ (Nat.log2 (Gen.INPUT_POLL_INTERVAL + 1)) - 1 := by decide
+  have h2 : Gen.INPUT_POLL_INTERVAL + 1 = 2 ^ (Nat.log2 (Gen.INPUT_POLL_INTERVAL + 1)) := by decide
+  rw [h2]
+  conv => lhs; rw [h]
+  exact Nat.and_two_pow_sub_one_eq_mod _ _
 
 /-- **T9.1** The search looks for a stop request at least once every `INPUT_POLL_INTERVAL + 1` nodes: at the end of every
     `search` that was not stopped - every rules instance, position, depth, table, history, poll predicate and input
@@ -104,11 +107,14 @@ theorem polled_in_every_window (R : Rules) (cfg : Cfg) (g : Game) (depth : Int) 
     (ha : a + (Gen.INPUT_POLL_INTERVAL + 1) ≤ (search R cfg g depth tt rep).2.nodes) :
     ∃ n ∈ (search R cfg g depth tt rep).2.pollLog, a ≤ n ∧ n < a + (Gen.INPUT_POLL_INTERVAL + 1) := by
   have hc := search_cad R cfg g depth tt rep hrun
-  have hI : Gen.INPUT_POLL_INTERVAL + 1 = 16384 := by decide
-  rw [hI] at ha ⊢
-  -- the multiple of 16384 inside the window
-  refine ⟨(a + 16383) / 16384 * 16384, hc _ (by omega) ?_, by omega, by omega⟩
-  rw [poll_test_is_multiple, hI]
+  generalize hW : Gen.INPUT_POLL_INTERVAL + 1 = W at ha ⊢
+  have hWpos : 0 < W := by rw [← hW]; omega
+  -- the multiple of W inside the window
+  have hdiv := Nat.div_add_mod (a + (W - 1)) W
+  have hmod := Nat.mod_lt (a + (W - 1)) hWpos
+  have hm : W * ((a + (W - 1)) / W) = (a + (W - 1)) / W * W := Nat.mul_comm _ _
+  refine ⟨(a + (W - 1)) / W * W, hc _ (by omega) ?_, by omega, by omega⟩
+  rw [poll_test_is_multiple, hW]
   exact Nat.mul_mod_left _ _
 
 /-- the invariant behind it, for a search that is still running at any node of the main search -/
